@@ -15,7 +15,8 @@ import itertools
 from dataclasses import dataclass, field
 from typing import Iterator, Any, Callable
 
-from .loader import Repo, Cls, Func, Mod, dotted, AnalysisError
+from .loader import Repo, Cls, Func, Mod, dotted, AnalysisError, walk_no_nested
+from .migraph import MGraph, MVertex, MEdge, MGraphError, _Seq as _MSeq
 from .consts import Folder, NotConst, EnumMember, ClassRef, Opaque
 
 
@@ -63,9 +64,15 @@ class AObj:
         return f"<{self.cls.name}#{self.uid}>"
 
 
-@dataclass
+@dataclass(eq=False)
 class ClassVal:
     cls: Cls
+
+    def __eq__(self, o: object) -> bool:
+        return isinstance(o, ClassVal) and o.cls == self.cls
+
+    def __hash__(self) -> int:
+        return hash(("class", self.cls.qual))
 
 
 @dataclass
@@ -141,6 +148,46 @@ class Interp:
         self.max_steps = max_steps
         self.depth = 0
         self.trace: list[str] = []
+        self.caught: list[tuple[str, str, str, str]] = []  # exceptions the analysed code caught itself (diagnostics)
+        self._globals: dict[tuple[str, str], Any] = {}
+        self._lenient = 0  # > 0 while a message for an exception is being built (its text never matters)
+
+    # ------------------------------------------------------------------ class bodies
+    def class_ns(self, cls: Cls) -> dict[str, Any]:
+        """The class's own namespace after its body ran (assignments and loops at class level; one object per interpreter, as in a process)."""
+        cache = self.__dict__.setdefault("_class_ns", {})
+        if cls.qual in cache:
+            return cache[cls.qual]  # type: ignore[no-any-return]
+        ns: dict[str, Any] = {}
+        cache[cls.qual] = ns
+        env = Env(cls.mod, ns, None)
+        for st in cls.node.body:
+            if isinstance(st, (ast.FunctionDef, ast.AsyncFunctionDef, ast.ClassDef, ast.Pass)):
+                continue
+            if isinstance(st, ast.Expr) and isinstance(st.value, ast.Constant):
+                continue
+            if isinstance(st, ast.AnnAssign) and st.value is None:
+                continue
+            try:
+                self.exec_stmt(st, env)
+            except (Unsupported, PyExc):
+                # leave the names of this statement undefined; a later read reports it
+                for n in ast.walk(st):
+                    if isinstance(n, ast.Name) and isinstance(n.ctx, ast.Store):
+                        ns.pop(n.id, None)
+                        ns.setdefault("<failed>", set()).add(n.id)
+        return ns
+
+    def class_attr(self, cls: Cls, attr: str) -> tuple[bool, Any]:
+        for k in self.repo.mro(cls):
+            if attr in k.class_assigns or any(isinstance(n, ast.Name) and n.id == attr and isinstance(n.ctx, ast.Store) for st in k.node.body
+                                              if not isinstance(st, (ast.FunctionDef, ast.ClassDef)) for n in ast.walk(st)):
+                ns = self.class_ns(k)
+                if attr in ns:
+                    return True, ns[attr]
+                if attr in ns.get("<failed>", ()):
+                    raise Unsupported(f"class attribute {k.name}.{attr} could not be evaluated")
+        return False, None
 
     # ------------------------------------------------------------------ parse-tree visitors
     def _is_tree_visitor(self, cls: Cls) -> bool:
@@ -200,6 +247,10 @@ class Interp:
             if isinstance(v, AObj):
                 return c.cls in self.repo.mro(v.cls)
             return False
+        if isinstance(c, _External):
+            nm = c.name.split(".")[-1]
+            if c.name.startswith("igraph") and nm in ("Vertex", "Edge", "Graph"):
+                return isinstance(v, {"Vertex": MVertex, "Edge": MEdge, "Graph": MGraph}[nm])
         if isinstance(c, Opaque):
             t = {"int": int, "str": str, "list": list, "dict": dict, "tuple": tuple, "set": set, "bool": bool, "float": float}.get(c.text)
             if t is not None:
@@ -249,8 +300,20 @@ class Interp:
             if m is not None:
                 return self.call_func(m, [fv] + args, kwargs)
         if callable(fv):
-            return fv(*args, **kwargs)
+            if any(isinstance(a, AObj) for a in args) and fv in _ITERABLE_BUILTINS:
+                args = [self.iterate(a) if isinstance(a, AObj) and self.repo.find_method(a.cls, "__iter__") is not None else a for a in args]
+            try:
+                return fv(*args, **kwargs)
+            except MGraphError as ex:
+                raise self._lib_error(ex)
+            except StopIteration:
+                raise PyExc("StopIteration", "")
         raise Unsupported(f"call of {fv!r}")
+
+    def _lib_error(self, ex: MGraphError) -> Exception:
+        if ex.kind == "Unsupported":
+            return Unsupported(f"graph library: {ex.msg}")
+        return PyExc(ex.kind, ex.msg, "igraph")
 
     def call_func(self, f: Func, args: list[Any], kwargs: dict[str, Any]) -> Any:
         self.depth += 1
@@ -286,6 +349,15 @@ class Interp:
             if fn.args.kwarg:
                 loc[fn.args.kwarg.arg] = {k: v for k, v in kwargs.items() if k not in params}
             env = Env(f.mod, loc, f)
+            if self._is_generator(fn):
+                # generator functions are run eagerly; the values they yield are handed out by an iterator afterwards (the
+                # repository's generators have no side effects that a consumer could observe in between)
+                env.locals["<yields>"] = []
+                try:
+                    self.exec_block(fn.body, env)
+                except _Return:
+                    pass
+                return _AIter(env.locals["<yields>"])
             try:
                 self.exec_block(fn.body, env)
             except _Return as r:
@@ -293,6 +365,24 @@ class Interp:
             return None
         finally:
             self.depth -= 1
+
+    def _is_generator(self, fn: ast.FunctionDef) -> bool:
+        c = self.__dict__.setdefault("_gen_cache", {})
+        if id(fn) not in c:
+            c[id(fn)] = any(isinstance(n, (ast.Yield, ast.YieldFrom)) for n in walk_no_nested(fn))
+        return c[id(fn)]  # type: ignore[no-any-return]
+
+    def ev_Yield(self, e: ast.Yield, env: Env) -> Any:
+        if "<yields>" not in env.locals:
+            raise Unsupported("yield outside a generator function")
+        env.locals["<yields>"].append(self.eval(e.value, env) if e.value is not None else None)
+        return None
+
+    def ev_YieldFrom(self, e: ast.YieldFrom, env: Env) -> Any:
+        if "<yields>" not in env.locals:
+            raise Unsupported("yield outside a generator function")
+        env.locals["<yields>"].extend(self.iterate(self.eval(e.value, env)))
+        return None
 
     # ------------------------------------------------------------------ statements
     def exec_block(self, body: list[ast.stmt], env: Env) -> None:
@@ -370,11 +460,14 @@ class Interp:
             if isinstance(e, ast.Call):
                 name = dotted(e.func) or "Exception"
                 msg = ""
+                self._lenient += 1
                 try:
                     if e.args:
                         msg = str(self.eval(e.args[0], env))
                 except Unsupported:
                     msg = "<message>"
+                finally:
+                    self._lenient -= 1
             else:
                 v = self.eval(e, env) if not isinstance(e, ast.Name) or e.id in env.locals else None
                 if isinstance(v, PyExc):
@@ -414,6 +507,7 @@ class Interp:
                         els = h.type.elts if isinstance(h.type, ast.Tuple) else [h.type]
                         types = [(dotted(x) or "").split(".")[-1] for x in els]
                     if self.exc_matches(ex, types):
+                        self.caught.append((ex.cls_name, ex.msg, ex.where, f"{env.func.short if env.func else '?'}:{h.lineno}"))
                         if h.name:
                             env.locals[h.name] = ex
                         self.exec_block(h.body, env)
@@ -425,10 +519,66 @@ class Interp:
             finally:
                 if st.finalbody:
                     self.exec_block(st.finalbody, env)
+        elif isinstance(st, ast.ImportFrom) and env.func is not None and st.module and st.level == 0:
+            # function-level import (used by the repository to break import cycles)
+            mod = self.repo.modules.get(st.module)
+            for al in st.names:
+                nm = al.asname or al.name
+                if mod is None:
+                    env.locals[nm] = _STDLIB_CONSTS.get(f"{st.module}.{al.name}", _External(f"{st.module}.{al.name}"))
+                elif al.name in mod.classes:
+                    env.locals[nm] = ClassVal(mod.classes[al.name])
+                elif al.name in mod.funcs:
+                    env.locals[nm] = FuncVal(Func(mod, None, mod.funcs[al.name]))
+                else:
+                    env.locals[nm] = self.global_name(mod, al.name)
+            return
         elif isinstance(st, (ast.Import, ast.ImportFrom, ast.Global, ast.Nonlocal)):
             return
         elif isinstance(st, ast.With):
-            raise Unsupported("with statement")
+            managers = []
+            for item in st.items:
+                cm = self.eval(item.context_expr, env)
+                val: Any = cm
+                if isinstance(cm, AObj):
+                    en = self.repo.find_method(cm.cls, "__enter__")
+                    if en is None or self.repo.find_method(cm.cls, "__exit__") is None:
+                        raise Unsupported(f"{cm.cls.name} is not a context manager")
+                    val = self.call_func(en, [cm], {})
+                elif isinstance(cm, _External):
+                    val = cm  # locks and the like: entering/leaving has no effect on a single thread of evaluation
+                elif hasattr(cm, "__enter__"):
+                    val = cm.__enter__()
+                else:
+                    raise Unsupported(f"with over {type(cm).__name__}")
+                if item.optional_vars is not None:
+                    self.assign(item.optional_vars, val, env)
+                managers.append(cm)
+            try:
+                self.exec_block(st.body, env)
+            except PyExc as ex:
+                swallowed = False
+                for cm in reversed(managers):
+                    if isinstance(cm, AObj):
+                        r = self.call_func(self.repo.find_method(cm.cls, "__exit__"), [cm, _External(ex.cls_name), ex, None], {})  # type: ignore[arg-type]
+                        swallowed = swallowed or bool(r)
+                    elif hasattr(cm, "__exit__") and not isinstance(cm, _External):
+                        cm.__exit__(None, None, None)
+                if not swallowed:
+                    raise
+            except (_Return, _Break, _Continue):
+                for cm in reversed(managers):
+                    if isinstance(cm, AObj):
+                        self.call_func(self.repo.find_method(cm.cls, "__exit__"), [cm, None, None, None], {})  # type: ignore[arg-type]
+                    elif hasattr(cm, "__exit__") and not isinstance(cm, _External):
+                        cm.__exit__(None, None, None)
+                raise
+            else:
+                for cm in reversed(managers):
+                    if isinstance(cm, AObj):
+                        self.call_func(self.repo.find_method(cm.cls, "__exit__"), [cm, None, None, None], {})  # type: ignore[arg-type]
+                    elif hasattr(cm, "__exit__") and not isinstance(cm, _External):
+                        cm.__exit__(None, None, None)
         elif isinstance(st, (ast.FunctionDef, ast.ClassDef)):
             raise Unsupported("nested definition")
         else:
@@ -463,6 +613,8 @@ class Interp:
             idx = self.eval(t.slice, env)
             try:
                 base[idx] = v
+            except MGraphError as ex:
+                raise self._lib_error(ex)
             except IndexError:
                 raise PyExc("IndexError", "list assignment index out of range")
             except TypeError:
@@ -497,6 +649,10 @@ class Interp:
     def iterate(self, v: Any) -> Any:
         if isinstance(v, (list, tuple, set, dict, str, range)):
             return list(v)
+        if isinstance(v, AObj):
+            m = self.repo.find_method(v.cls, "__iter__")
+            if m is not None:
+                return list(self.iterate(self.call_func(m, [v], {})))
         if isinstance(v, (zip, enumerate, map, filter)) or hasattr(v, "__next__"):
             return list(v)
         if hasattr(v, "__iter__") and not isinstance(v, (AObj,)):
@@ -530,6 +686,28 @@ class Interp:
                 return FuncVal(obj)  # type: ignore[arg-type]
             if kind == "const":
                 m2, n2 = obj  # type: ignore[misc]
+                gkey = (getattr(m2, "name", m2), n2)
+                if gkey in self._globals:
+                    return self._globals[gkey]
+                val = self._global_value(m2, n2, name)
+                if isinstance(val, (list, dict, set, AObj)):
+                    self._globals[gkey] = val  # module-level mutable state lives as long as this interpreter (one "process")
+                return val
+            if kind == "external":
+                if str(obj) in _STDLIB_CONSTS:
+                    return _STDLIB_CONSTS[str(obj)]
+                return _External(str(obj))
+            if kind == "module":
+                return _External(obj.name)  # type: ignore[union-attr]
+        if name in _BUILTINS:
+            return _BUILTINS[name]
+        if name in BUILTIN_EXC:
+            return _External(name)
+        raise Unsupported(f"name {name}")
+
+    def _global_value(self, m2: Any, n2: str, name: str) -> Any:
+        if True:
+            if True:
                 try:
                     v = self.fold.name(m2, n2)
                 except NotConst as ex:
@@ -538,14 +716,6 @@ class Interp:
                         return self.eval(mm.assigns[n2], Env(mm, {}, None))
                     raise Unsupported(f"global {name}: {ex}")
                 return self.from_folded(v)
-            if kind == "external":
-                return _External(str(obj))
-            if kind == "module":
-                return _External(obj.name)  # type: ignore[union-attr]
-        if name in _BUILTINS:
-            return _BUILTINS[name]
-        if name in BUILTIN_EXC:
-            return _External(name)
         raise Unsupported(f"name {name}")
 
     def from_folded(self, v: Any) -> Any:
@@ -558,11 +728,13 @@ class Interp:
                 return ClassVal(self.repo.modules[mod].classes[n])
             return _External(v.qual)
         if isinstance(v, Opaque):
+            if v.text.replace(" ", "") == "type(None)":
+                return type(None)
             return _External(v.text)
         if isinstance(v, list):
             return [self.from_folded(x) for x in v]
         if isinstance(v, dict):
-            return {k: self.from_folded(x) for k, x in v.items()}
+            return {self.from_folded(k): self.from_folded(x) for k, x in v.items()}
         return v
 
     def ev_Attribute(self, e: ast.Attribute, env: Env) -> Any:
@@ -570,11 +742,20 @@ class Interp:
         return self.getattr_(o, e.attr)
 
     def getattr_(self, o: Any, attr: str) -> Any:
+        if isinstance(o, (MGraph, MVertex, MEdge, _MSeq)):
+            try:
+                return getattr(o, attr)
+            except MGraphError as ex:
+                raise self._lib_error(ex)
+            except AttributeError:
+                raise Unsupported(f"graph library attribute {type(o).__name__}.{attr} is not modelled")
         if isinstance(o, AObj):
             if attr in o.attrs:
                 return o.attrs[attr]
             if attr == "__class__":
                 return ClassVal(o.cls)
+            if attr == "__dict__":
+                return dict(o.attrs)
             getter = self._find_property(o.cls, attr, "getter")
             if getter is not None:
                 return self.call_func(getter, [o], {})
@@ -583,12 +764,9 @@ class Interp:
                 return FuncVal(m, o)
             if attr.startswith("visit") and self._is_tree_visitor(o.cls):
                 return _BoundVisit(self, attr, o)
-            for k in self.repo.mro(o.cls):
-                if attr in k.class_assigns:
-                    try:
-                        return self.from_folded(self.fold.expr(k.mod, k.class_assigns[attr]))
-                    except NotConst:
-                        raise Unsupported(f"class attribute {k.name}.{attr}")
+            found, val = self.class_attr(o.cls, attr)
+            if found:
+                return val
             raise PyExc("AttributeError", f"{o.cls.name} has no attribute {attr}")
         if isinstance(o, ClassVal):
             if attr == "__name__":
@@ -599,9 +777,10 @@ class Interp:
             if m is not None:
                 decos = [dotted(d) for d in m.node.decorator_list]
                 return FuncVal(m, o if "classmethod" in decos else None)
+            found, val = self.class_attr(o.cls, attr)
+            if found:
+                return val
             for k in self.repo.mro(o.cls):
-                if attr in k.class_assigns:
-                    return self.from_folded(self.fold.expr(k.mod, k.class_assigns[attr]))
                 for sub in k.node.body:
                     if isinstance(sub, ast.ClassDef) and sub.name == attr:
                         return ClassVal(Cls(f"{k.name}.{attr}", k.mod, sub, list(sub.bases)))
@@ -630,10 +809,9 @@ class Interp:
             if f"{o.name}.{attr}" in _STDLIB_CONSTS:
                 return _STDLIB_CONSTS[f"{o.name}.{attr}"]
             return _External(f"{o.name}.{attr}")
-        if isinstance(o, (list, dict, set, str, tuple)):
-            if attr in ("append", "extend", "insert", "pop", "remove", "copy", "index", "count", "get", "keys", "values", "items", "add", "update",
-                        "setdefault", "clear", "splitlines", "isdigit", "partition", "rpartition", "find", "startswith", "endswith", "join", "split", "strip", "lstrip", "rstrip", "replace", "format", "lower", "upper"):
-                return _BoundNative(o, attr)
+        if isinstance(o, (list, dict, set, str, tuple, frozenset)):
+            if not attr.startswith("_") and hasattr(o, attr):
+                return _BoundNative(o, attr)  # methods of the built-in containers and of str: fixed by the language
             raise Unsupported(f"native attribute {attr}")
         if isinstance(o, PyExc):
             if attr == "__context__":
@@ -723,9 +901,11 @@ class Interp:
             except TypeError as ex:
                 raise PyExc("TypeError", str(ex))
         if fv is _BUILTINS["str"]:
-            return self.str_(args[0]) if args else ""
+            return self.str_strict(args[0]) if args else ""
         if fv is _BUILTINS["hasattr"]:
             o, a = args
+            if o is None or isinstance(o, (int, str, float, bool, list, dict, tuple, set)):
+                return hasattr(o, a)
             try:
                 self.getattr_(o, a)
                 return True
@@ -735,6 +915,8 @@ class Interp:
             o = args[0]
             if isinstance(o, AObj):
                 return ClassVal(o.cls)
+            if o is None or isinstance(o, (int, str, float, bool, list, dict, tuple, set)):
+                return type(o)
             raise Unsupported("type() of native")
         if fv is _BUILTINS["id"]:
             o = args[0]
@@ -771,10 +953,62 @@ class Interp:
                 out.append(str(p.value))
             elif isinstance(p, ast.FormattedValue):
                 try:
-                    out.append(self.str_(self.eval(p.value, env)))
+                    v = self.eval(p.value, env)
+                    if p.format_spec is not None:
+                        spec = self.eval(p.format_spec, env)
+                        if isinstance(v, (int, str, float)) and not isinstance(v, bool):
+                            out.append(format(v, spec))
+                        else:
+                            out.append(format(self.str_strict(v), spec))
+                    elif p.conversion == 114:  # !r
+                        out.append(repr(v) if isinstance(v, (int, str, float, bool, type(None))) else self.str_strict(v))
+                    else:
+                        out.append(self.str_strict(v))
                 except Unsupported:
-                    out.append("<?>")
+                    if self._lenient:
+                        out.append("<?>")
+                    else:
+                        raise
         return "".join(out)
+
+    def str_strict(self, v: Any) -> str:
+        """str(v) exactly, or Unsupported (used where the text is an output of the analysed code)."""
+        if isinstance(v, Tok):
+            return v.text
+        if isinstance(v, AObj):
+            m = self.repo.find_method(v.cls, "__str__")
+            if m is None:
+                if self._lenient:
+                    return f"<{v.cls.name}>"
+                raise Unsupported(f"str() of {v.cls.name} without __str__")
+            return str(self.call_func(m, [v], {}))
+        if isinstance(v, EnumVal):
+            return f"{v.cls.name}.{v.name}"
+        if v is None or isinstance(v, (int, str, float, bool)):
+            return str(v)
+        if isinstance(v, dict):
+            return "{" + ", ".join(f"{self.repr_strict(k)}: {self.repr_strict(x)}" for k, x in v.items()) + "}"
+        if isinstance(v, (set, frozenset)):
+            return "{" + ", ".join(sorted(self.repr_strict(x) for x in v)) + "}" if v else "set()"
+        if isinstance(v, ClassVal):
+            return f"<class '{v.cls.qual}'>"
+        if isinstance(v, (MVertex, MEdge, MGraph)):
+            return repr(v)
+        if isinstance(v, (list, tuple)):
+            inner = ", ".join(self.repr_strict(x) for x in v)
+            return f"[{inner}]" if isinstance(v, list) else (f"({inner},)" if len(v) == 1 else f"({inner})")
+        if self._lenient:
+            return "<value>"
+        raise Unsupported(f"str() of {type(v).__name__}")
+
+    def repr_strict(self, v: Any) -> str:
+        if v is None or isinstance(v, (int, str, float, bool)):
+            return repr(v)
+        if isinstance(v, AObj):
+            m = self.repo.find_method(v.cls, "__repr__")
+            if m is not None:
+                return str(self.call_func(m, [v], {}))
+        return self.str_strict(v)
 
     def ev_List(self, e: ast.List, env: Env) -> Any:
         out = []
@@ -905,6 +1139,8 @@ class Interp:
             return base  # Generic[...] subscription
         try:
             return base[idx]
+        except MGraphError as ex:
+            raise self._lib_error(ex)
         except IndexError:
             raise PyExc("IndexError", "list index out of range")
         except KeyError:
@@ -1012,6 +1248,23 @@ def _leaves(c: ACtx) -> Iterator[Any]:
             yield x
 
 
+class _AIter:
+    """Iterator over the values an eagerly evaluated generator yielded."""
+
+    def __init__(self, items: list[Any]) -> None:
+        self.items = list(items)
+        self.i = 0
+
+    def __iter__(self) -> "_AIter":
+        return self
+
+    def __next__(self) -> Any:
+        if self.i >= len(self.items):
+            raise StopIteration
+        self.i += 1
+        return self.items[self.i - 1]
+
+
 class _BoundVisit:
     """The tree-visitor protocol of the parser runtime (visit / visitChildren / accept / default visitX): pure dispatch on the rule name."""
 
@@ -1062,13 +1315,55 @@ class _BoundNative:
 
 
 def _b_len(x: Any) -> int:
-    if isinstance(x, (list, dict, set, tuple, str)):
+    if isinstance(x, (list, dict, set, tuple, str, _MSeq, frozenset)):
         return len(x)
     raise Unsupported("len of abstract value")
 
 
-_STDLIB_CONSTS = {"string.digits": "0123456789", "string.ascii_letters": "abcdefghijklmnopqrstuvwxyzABCDEFGHIJKLMNOPQRSTUVWXYZ",
+_STDLIB_CONSTS = {"igraph.OUT": 1, "igraph.IN": 2, "igraph.ALL": 3, "string.digits": "0123456789", "string.ascii_letters": "abcdefghijklmnopqrstuvwxyzABCDEFGHIJKLMNOPQRSTUVWXYZ",
                   "string.hexdigits": "0123456789abcdefABCDEF", "string.whitespace": " \t\n\r\x0b\x0c"}
+
+def _deepcopy(v: Any, memo: dict[int, Any] | None = None) -> Any:
+    """copy.deepcopy over abstract values (sharing preserved through the memo, as in the standard library)."""
+    if memo is None:
+        memo = {}
+    if v is None or isinstance(v, (int, str, float, bool, EnumVal, ClassVal, FuncVal, Tok, ACtx, _External, frozenset)):
+        return v
+    if id(v) in memo:
+        return memo[id(v)]
+    if isinstance(v, AObj):
+        o = AObj(v.cls)
+        memo[id(v)] = o
+        for k, x in v.attrs.items():
+            o.attrs[k] = _deepcopy(x, memo)
+        return o
+    if isinstance(v, list):
+        out: list[Any] = []
+        memo[id(v)] = out
+        out.extend(_deepcopy(x, memo) for x in v)
+        return out
+    if isinstance(v, dict):
+        d: dict[Any, Any] = {}
+        memo[id(v)] = d
+        for k, x in v.items():
+            d[_deepcopy(k, memo)] = _deepcopy(x, memo)
+        return d
+    if isinstance(v, tuple):
+        return tuple(_deepcopy(x, memo) for x in v)
+    if isinstance(v, set):
+        return {_deepcopy(x, memo) for x in v}
+    raise Unsupported(f"deepcopy of {type(v).__name__}")
+
+
+def _shallowcopy(v: Any) -> Any:
+    if isinstance(v, AObj):
+        o = AObj(v.cls)
+        o.attrs = dict(v.attrs)
+        return o
+    if isinstance(v, (list, dict, set)):
+        return v.copy()
+    return v
+
 
 def _consume(it: Any = (), maxlen: Any = None) -> Any:
     out = list(it)
@@ -1077,11 +1372,25 @@ def _consume(it: Any = (), maxlen: Any = None) -> Any:
 
 # pure standard-library callables whose semantics are fixed by the language, not by the repository
 _STDLIB_FUNCS: dict[str, Any] = {"itertools.takewhile": lambda f, it: list(itertools.takewhile(f, it)), "itertools.count": itertools.count,
-                                 "itertools.chain": lambda *a: list(itertools.chain(*a)), "collections.deque": _consume, "deque": _consume,
+                                 "itertools.chain": lambda *a: list(itertools.chain(*a)), "collections.deque": _consume, "deque": _consume, "igraph.Graph": MGraph, "copy.deepcopy": lambda v, memo=None: _deepcopy(v), "copy.copy": _shallowcopy,
                                  "antlr4.ParserRuleContext": lambda *a: ACtx("_empty"), "antlr4.ParserRuleContext.ParserRuleContext": lambda *a: ACtx("_empty")}
+
+def _b_iter(x: Any) -> Any:
+    if isinstance(x, _AIter):
+        return x
+    return _AIter(list(x))
+
 
 _BUILTINS: dict[str, Any] = {
     "next": next,
+    "iter": _b_iter,
+    "sum": sum,
+    "abs": abs,
+    "frozenset": lambda x=(): frozenset(x),
+    "map": lambda f, *its: [f(*a) for a in zip(*its)],
+    "filter": lambda f, it: [x for x in it if (f(x) if f is not None else x)],
+    "repr": repr,
+    "isinstance_native": isinstance,
     "len": _b_len,
     "isinstance": object(),
     "str": object(),
@@ -1108,3 +1417,6 @@ _BUILTINS: dict[str, Any] = {
     "False": False,
     "None": None,
 }
+
+_ITERABLE_BUILTINS = {_BUILTINS[n] for n in ("list", "tuple", "set", "sorted", "enumerate", "zip", "any", "all", "min", "max", "reversed", "sum", "iter", "frozenset")
+                      if n in _BUILTINS}
